@@ -152,6 +152,12 @@ def check(ck):
             restores = [m for m in g.live_nodes() if m.kind == "stmt" and isinstance(m.ast, ast.Assign) and
                         any(isinstance(tg, ast.Subscript) and dump(tg.value) == dump(recv) for tg in m.ast.targets)]
             is_pop = desc.startswith("call ") and desc.endswith(".pop")
+            if is_pop and any(isinstance(y_, (ast.Yield, ast.YieldFrom)) for y_ in ast.walk(fi.node)):
+                ck.bad("C15.1", "%s: %s inside a generator" % (q.fn(fi), desc),
+                       "`%s` removes an entry of the caller's object inside a generator: the restoring `finally` only runs when the generator is "
+                       "resumed to its end or finalised - if the consumer fails between two items (or keeps the generator alive), the argument "
+                       "stays modified" % q.stmt_text(n)[:50], q.loc(fi, n))
+                continue
             if is_pop and restores:
                 key = None
                 for c in node_calls(n):
